@@ -234,15 +234,17 @@ func r16_2(c *Ctx, a *c16anchors) {
 			entry := a.pop.Blocks[0]
 			iff := blockIf(entry)
 			good := false
-			if iff != nil && condEdgeDominates(entry, true, blk) {
+			if iff != nil {
 				if b, ok := iff.Cond.(*ssa.BinOp); ok {
-					good = nonEmptyTest(b, a)
+					if ne, ok := stackTest(b, a); ok && condEdgeDominates(entry, ne, blk) {
+						good = true
+					}
 				}
 			}
 			if good {
 				c.ok(key, iff.Pos(), "pop is skipped only when the stack is empty")
 			} else {
-				c.unres(key, st.Pos(), "the condition guarding the pop is not a recognised non-empty test (accepted: len(s) > 0, len(s) != 0, len(s) >= 1); a different guard would skip pops on a non-empty stack")
+				c.unres(key, st.Pos(), "the condition guarding the pop is not a recognised non-empty test (accepted: len(s) > 0, len(s) != 0, len(s) >= 1 around the pop, or len(s) == 0, len(s) < 1 returning early); a different guard would skip pops on a non-empty stack")
 			}
 		}
 	}
@@ -257,22 +259,49 @@ func isLenOfStack(v ssa.Value, a *c16anchors) bool {
 	return ok
 }
 
+// stackTest classifies a comparison of len(stack) with a constant: ok when it is an emptiness test, and then
+// nonEmptyOnTrue tells which edge is taken for a non-empty stack.
+func stackTest(b *ssa.BinOp, a *c16anchors) (nonEmptyOnTrue, ok bool) {
+	op := b.Op
+	var k int64
+	switch {
+	case isLenOfStack(b.X, a):
+		kk, isK := constInt64(b.Y)
+		if !isK {
+			return false, false
+		}
+		k = kk
+	case isLenOfStack(b.Y, a):
+		kk, isK := constInt64(b.X)
+		if !isK {
+			return false, false
+		}
+		k = kk
+		switch op {
+		case token.LSS:
+			op = token.GTR
+		case token.GTR:
+			op = token.LSS
+		case token.LEQ:
+			op = token.GEQ
+		case token.GEQ:
+			op = token.LEQ
+		}
+	default:
+		return false, false
+	}
+	switch {
+	case op == token.GTR && k == 0, op == token.NEQ && k == 0, op == token.GEQ && k == 1:
+		return true, true
+	case op == token.EQL && k == 0, op == token.LSS && k == 1, op == token.LEQ && k == 0:
+		return false, true
+	}
+	return false, false
+}
+
 func nonEmptyTest(b *ssa.BinOp, a *c16anchors) bool {
-	if isLenOfStack(b.X, a) {
-		k, ok := constInt64(b.Y)
-		if !ok {
-			return false
-		}
-		return (b.Op == token.GTR && k == 0) || (b.Op == token.NEQ && k == 0) || (b.Op == token.GEQ && k == 1)
-	}
-	if isLenOfStack(b.Y, a) {
-		k, ok := constInt64(b.X)
-		if !ok {
-			return false
-		}
-		return (b.Op == token.LSS && k == 0) || (b.Op == token.NEQ && k == 0) || (b.Op == token.LEQ && k == 1)
-	}
-	return false
+	ne, ok := stackTest(b, a)
+	return ok && ne
 }
 
 // R16.3 balance on every path
@@ -434,13 +463,81 @@ func r16_4(c *Ctx, a *c16anchors) {
 		}
 	}
 	found := map[string]bool{}
+	// function-body helpers: an unexported function, called only by the two function parsers, that pushes the function
+	// context once and then parses the block; a call to it stands for the push in its callers.
+	bodyHelpers := map[*ssa.Function]bool{}
 	for _, f := range c.libFunctions("parser") {
+		if _, isRole := roleFns[f]; isRole || f.Signature.Recv() == nil {
+			continue
+		}
+		var pushes, blocks []*ssa.Call
+		allInstrs(f, func(_ *ssa.BasicBlock, _ int, in ssa.Instruction) {
+			if call, ok := in.(*ssa.Call); ok {
+				cal := staticCallee(call)
+				if cal == a.push {
+					pushes = append(pushes, call)
+				} else if r, ok := roleFns[cal]; ok && r.node == "BlockStatement" {
+					blocks = append(blocks, call)
+				}
+			}
+		})
+		if len(pushes) != 1 || len(blocks) != 1 || !instrDominates(pushes[0], blocks[0]) {
+			continue
+		}
+		if k, isK := constInt64(unwrap(pushes[0].Call.Args[1])); !isK || k != a.fnCtx {
+			continue
+		}
+		// the block it returns is the one parsed under the push
+		retOK := true
+		allInstrs(f, func(_ *ssa.BasicBlock, _ int, in ssa.Instruction) {
+			if ret, ok := in.(*ssa.Return); ok {
+				for _, r := range ret.Results {
+					if unwrapDeferResult(r) != ssa.Value(blocks[0]) {
+						retOK = false
+					}
+				}
+			}
+		})
+		if !retOK {
+			continue
+		}
+		if _, closed := c.argsAtCallers(f, 0); !closed {
+			continue
+		}
+		onlyRoles := true
+		for _, g := range c.libFunctions("parser") {
+			allInstrs(g, func(_ *ssa.BasicBlock, _ int, in ssa.Instruction) {
+				if ci, ok := in.(ssa.CallInstruction); ok && staticCallee(ci) == f {
+					if r, ok := roleFns[g]; !ok || r.ctx != a.fnCtx {
+						onlyRoles = false
+					}
+				}
+			})
+		}
+		if onlyRoles {
+			bodyHelpers[f] = true
+			c.ok(fnName(f)+": function-body helper", pushes[0].Pos(), "pushes FunctionContext once, then parses and returns the block; called only by the function parsers")
+		}
+	}
+	for _, f := range c.libFunctions("parser") {
+		if bodyHelpers[f] {
+			continue
+		}
 		var pushes []*ssa.Call
+		viaHelper := false
 		allInstrs(f, func(_ *ssa.BasicBlock, _ int, in ssa.Instruction) {
 			if call, ok := in.(*ssa.Call); ok && staticCallee(call) == a.push {
 				pushes = append(pushes, call)
 			}
 		})
+		if _, isRole := roleFns[f]; isRole && len(pushes) == 0 {
+			allInstrs(f, func(_ *ssa.BasicBlock, _ int, in ssa.Instruction) {
+				if call, ok := in.(*ssa.Call); ok && bodyHelpers[staticCallee(call)] {
+					pushes = append(pushes, call)
+					viaHelper = true
+				}
+			})
+		}
 		r, isRole := roleFns[f]
 		if !isRole {
 			for i, p := range pushes {
@@ -455,12 +552,16 @@ func r16_4(c *Ctx, a *c16anchors) {
 			continue
 		}
 		push := pushes[0]
-		k, isK := constInt64(unwrap(push.Call.Args[1]))
 		want := "FunctionContext"
 		if r.ctx == a.blockCtx {
 			want = "BlockContext"
 		}
-		c.check(isK && k == r.ctx, key+": pushed kind", push.Pos(), "pushes "+want, "must push the constant "+want)
+		if viaHelper {
+			c.check(r.ctx == a.fnCtx, key+": pushed kind", push.Pos(), "pushes FunctionContext through the function-body helper", "a block parser must push BlockContext, not use the function-body helper")
+		} else {
+			k, isK := constInt64(unwrap(push.Call.Args[1]))
+			c.check(isK && k == r.ctx, key+": pushed kind", push.Pos(), "pushes "+want, "must push the constant "+want)
+		}
 		al := allocsOf(f, "ast", r.node)[0]
 		if r.ctx == a.fnCtx {
 			// after the '{' check
@@ -574,8 +675,8 @@ func r16_5(c *Ctx, a *c16anchors) {
 				emptyPath := false
 				for _, b := range cur.Blocks {
 					if iff := blockIf(b); iff != nil {
-						if bo, ok := iff.Cond.(*ssa.BinOp); ok && isLenOfStack(bo.X, a) {
-							if kk, ok := constInt64(bo.Y); ok && kk == 0 && bo.Op == token.EQL && condEdgeDominates(b, true, ret.Block()) {
+						if bo, ok := iff.Cond.(*ssa.BinOp); ok {
+							if ne, ok := stackTest(bo, a); ok && condEdgeDominates(b, !ne, ret.Block()) {
 								emptyPath = true
 							}
 						}
@@ -731,4 +832,25 @@ func fullRangeSearch(f *ssa.Function, a *c16anchors) (bool, string) {
 		}
 	})
 	return good, ""
+}
+
+// unwrapDeferResult: the value a function with deferred calls returns — go/ssa spills results of such functions into a
+// cell that is reloaded after the deferred calls ran; resolve the reload to the single stored value.
+func unwrapDeferResult(v ssa.Value) ssa.Value {
+	if u, ok := v.(*ssa.UnOp); ok && u.Op == token.MUL {
+		if al, ok := u.X.(*ssa.Alloc); ok {
+			var stored ssa.Value
+			n := 0
+			for _, r := range *al.Referrers() {
+				if st, ok := r.(*ssa.Store); ok && st.Addr == ssa.Value(al) {
+					stored = st.Val
+					n++
+				}
+			}
+			if n == 1 {
+				return stored
+			}
+		}
+	}
+	return v
 }
